@@ -608,3 +608,16 @@ META["trusted_base"] = list(META.get("trusted_base", [])) + [
 META["not_decided"] = list(META.get("not_decided", [])) + [
     "the same 'lock kept until the task is queued' obligation for local_queue_scheduler and shared_priority_queue_scheduler "
     "(their placement units model the unique_lock as an int)"]
+
+
+# ---- C02 units reused (added after seeded change C19-9 was missed): a task woken while its home worker is suspended is re-queued by
+# ---- set_thread_state -> schedule_thread(.., allow_fallback = false, ..): only then does select_active_pu move it to an awake worker
+_c02s = {"UNITS": [], "VX_NO_REUSE": True}
+if not globals().get("VX_NO_REUSE"):
+    exec(compile(open("/verif/specs/C02/spec.py").read(), "/verif/specs/C02/spec.py", "exec"), _c02s)
+for _u in _c02s["UNITS"]:
+    if _u.name in ("sts.set_thread_state", "sts.set_active_state"):
+        _u.name = "c02." + _u.name
+        _u.template = "../C02/" + _u.template
+        UNITS.append(_u)
+META["trusted_base"] = list(META.get("trusted_base", [])) + ["units c02.sts.* are the C02 units of the same name (specs/C02/sts.c, c02.h) with their trusted base"]
